@@ -1333,6 +1333,339 @@ def cell_combine(cell, common):
 
 
 # --------------------------------------------------------------------------- #
+#        table F: stored exponents far outside the double range               #
+# --------------------------------------------------------------------------- #
+# The exponent mechanism exists for values that a double cannot hold.  Here
+# the value is only ever handled as (array, log10 scale): the reference is
+# einsum(raw arrays) with scale = stored exponent; a result is read as
+# (mantissa, exponent) from the strip_exponent routes, or from a returned
+# network as einsum(per-tensor normalised arrays) with scale = exponent +
+# sum(log10 of the per-tensor factors).
+
+SHARE_MAX = 280.0  # |exponent| / n_tensors must stay below this for routes that distribute the exponent into the tensors
+
+
+def denote_log(tn, out):
+    """(array, log10 scale) of a live network; raises FloatingPointError when
+    a tensor has been zeroed / made non-finite (the value is lost)."""
+    ts = []
+    log = float(np.real(tn.exponent))
+    if not np.isfinite(log):
+        raise FloatingPointError("exponent %r" % (tn.exponent,))
+    for t in tn.tensors:
+        d = np.asarray(t.data)
+        m = float(np.max(np.abs(d))) if d.size else 1.0
+        if not np.isfinite(m) or m == 0.0:
+            raise FloatingPointError("tensor %r has max|data| = %r" % (t.inds, m))
+        ts.append((d / m, t.inds))
+        log += float(np.log10(m))
+    return ref.tn_value(ts, tuple(out), 0.0), log
+
+
+def read_log(x, out):
+    """result of an entry point -> (labels, array, log10 scale)"""
+    import quimb.tensor as qtn
+
+    if isinstance(x, qtn.TensorNetwork):
+        arr, log = denote_log(x, out)
+        return tuple(out), arr, log
+    if isinstance(x, tuple) and len(x) == 2:
+        m, e = x
+        e = float(np.real(e))
+        if isinstance(m, qtn.Tensor):
+            return tuple(m.inds), np.asarray(m.data), e
+        return (), np.asarray(m), e
+    raise TypeError("result %s carries no exponent" % type(x).__name__)
+
+
+def evaluate_log(acc, net, sub, entry, thunk, out, *, want=None, want_labs=None, want_log=None, order=True, opts="", facts=None, force=False, denote_over=None):
+    if not force and not acc.want(sub):
+        return None
+    eff = net.dflt if out is None else tuple(out)
+    if want is None:
+        want, want_labs = net.ref(eff, False), eff
+    if want_log is None:
+        want_log = net.expo
+    base = dict(entry=entry, extreme=True, expo_sign=int(np.sign(net.expo)), out_given=out is not None)
+    base.update(facts or {})
+    where = "%s[%s] on network %s dtype=%s exponent=%r(%s) out=%r" % (entry, opts, net.spec, net.dtype, net.expo, type(net.tn.exponent).__name__, out)
+    try:
+        got = thunk()
+    except Exception as ex:
+        acc.violation("%s raised %s: %s" % (where, type(ex).__name__, str(ex)[:200]), sub, kind="exception", exc=type(ex).__name__, **base)
+        if not net.intact():
+            net.rebuild()
+        return None
+    try:
+        labs, arr, log = read_log(got, eff if denote_over is None else denote_over)
+    except FloatingPointError as ex:
+        acc.violation("%s: the returned network no longer carries the value (%s)" % (where, ex), sub, kind="value-lost", **base)
+        return None
+    except KeyError as ex:
+        acc.violation("%s: returned network lost label %s" % (where, ex), sub, kind="labels", **base)
+        return None
+    except Exception as ex:
+        acc.violation("%s: result %s cannot be read: %s" % (where, type(got).__name__, str(ex)[:200]), sub, kind="unreadable", **base)
+        return None
+    delta = log - want_log
+    kind = None
+    if not (np.all(np.isfinite(arr)) and np.isfinite(delta)) or not np.any(arr != 0):
+        kind = "value-lost"
+    elif abs(delta) > 250:
+        kind = "log10-scale"
+    else:
+        kind = compare(labs, np.asarray(arr) * 10.0**delta, want_labs, want, net.rtol * 10, order_matters=(out is not None) and order, absscale=None)
+        if kind == "value":
+            # cancellation guard as in evaluate()
+            a2 = np.asarray(arr) * 10.0**delta
+            if tuple(labs) != tuple(want_labs):
+                a2 = np.transpose(a2, [tuple(labs).index(l) for l in want_labs])
+            absw = ref.tn_value([(np.abs(a), l) for a, l in net.raw], tuple(want_labs), 0.0) if len(want_labs) == len(eff) and sorted(want_labs) == sorted(eff) else None
+            if absw is not None and float(np.max(np.abs(a2 - want))) <= net.rtol * 1e-2 * float(np.max(absw)):
+                kind = None
+    if kind is None and not net.intact():
+        kind = "input-mutated"
+    if kind is not None:
+        acc.violation("%s: %s mismatch (got labels %r, log10 scale %.6f, want %.6f; max|mantissa|=%.6g)" % (where, kind, labs, log, want_log, float(np.max(np.abs(arr))) if np.size(arr) else 0.0), sub, kind=kind, **base)
+        if not net.intact():
+            net.rebuild()
+        return None
+    acc.ok(entry, "%s:%s" % (entry, "scalar" if not want_labs else "rank%d" % len(want_labs)))
+    return got
+
+
+def x_share_ok(tn):
+    return tn.num_tensors > 0 and abs(float(np.real(tn.exponent))) / tn.num_tensors <= SHARE_MAX
+
+
+def x_mass(tn):
+    """sum over the tensors of |log10 max|data||: once the exponent has been
+    distributed INTO the tensors their product is no longer a double, and a
+    contraction of them cannot be represented by any route"""
+    tot = 0.0
+    for t in tn.tensors:
+        m = float(np.max(np.abs(t.data))) if t.size else 1.0
+        tot += abs(np.log10(m)) if m > 0 and np.isfinite(m) else np.inf
+    return tot
+
+
+MASS_MAX = 140.0  # also keeps |result|**2 a double: Tensor.norm() squares the entries
+PER_TENSOR_MAX = 140.0
+
+
+def x_norms_ok(tn):
+    """every tensor's entries can be squared (strip_exponent / equalize_norms take Frobenius norms)"""
+    for t in tn.tensors:
+        m = float(np.max(np.abs(t.data))) if t.size else 1.0
+        if not (m > 0 and np.isfinite(m)) or abs(np.log10(m)) > PER_TENSOR_MAX:
+            return False
+    return True
+
+
+def x_menu(tn, O):
+    """history events admissible in log space: an event that distributes the
+    exponent into the tensors is offered only while the per-tensor share is
+    representable, a contraction only while the product of the tensors is"""
+    out = []
+    can_contract = x_mass(tn) <= MASS_MAX
+    norms_ok = x_norms_ok(tn)
+    for e in h_menu(tn, O, False):
+        if e[0] == "dist" or (e[0] == "eqnorm" and e[1] is None):
+            if not x_share_ok(tn):
+                continue
+        if e[0] in ("strip", "eqnorm") and not norms_ok:
+            continue
+        if e[0] in ("ctags", "cind", "cbetween") and not can_contract:
+            continue
+        out.append(e)
+    if x_share_ok(tn):
+        out.append(("dist", round(float(np.real(tn.exponent)) / 2, 3)))
+    return out
+
+
+def x_state_routes(acc, net, tn, O, sub):
+    f = {"history": True}
+    if x_mass(tn) > MASS_MAX:
+        return
+    evaluate_log(acc, net, sub, "x:state.contract(all,strip)", lambda: tn.contract(all, output_inds=O, strip_exponent=True), O, facts=f)
+    evaluate_log(acc, net, sub, "x:state.contract_(all)", lambda: tn.copy().contract_(all, output_inds=O), O, facts=f)
+    fr = label_freq([t.inds for t in tn.tensors])
+    if all(v <= 2 for v in fr.values()) and sorted(l for l in fr if fr[l] == 1) == sorted(O):
+        tags = sorted(t for t in tn.tag_map if t.startswith("T"))
+        evaluate_log(acc, net, sub, "x:state.contract_cumulative(strip)", lambda: tn.contract_cumulative(tags, output_inds=O, strip_exponent=True), O, facts=dict(f, cumulative=True))
+
+
+def cell_extreme(cell, common):
+    import quimb.tensor as qtn
+
+    only = cell.get("only")
+    hist_replay = only is not None and len(only) > 0 and only[0] == "H"
+    acc = Acc(None if hist_replay else only)
+    net = Net(cell["spec"], cell["dtype"], cell["expo"])
+    if cell["ekind"] == "np":
+        net.tn.exponent = np.float64(cell["expo"])
+        _rb = net.rebuild
+
+        def rebuild():
+            _rb()
+            net.tn.exponent = np.float64(cell["expo"])
+
+        net.rebuild = rebuild
+    tn = net.tn
+    n = net.n
+    E = net.expo
+    outs = ([None] if not net.hyper else []) + [tuple(net.labels), ()]
+    if len(net.labels) > 1:
+        outs.append(tuple(net.labels[::-1]))
+    nrm_cache = {}
+    if not hist_replay:
+        for out in outs:
+            if only is not None and repr(out) != only[1]:
+                continue
+            kw = {} if out is None else {"output_inds": out}
+            eff = net.dflt if out is None else tuple(out)
+            s0 = ("F", repr(out))
+            not_perm = out is not None and sorted(out) != sorted(net.dflt)
+            cumul_ok = not (not_perm or net.hyperish(out))
+
+            def ev(name, thunk, **k):
+                return evaluate_log(acc, net, s0 + (name + "|" + k.get("opts", ""),), name, thunk, out, **k)
+
+            # ---- routes that return (mantissa, exponent) ------------------
+            ev("x:contract(all,strip)", lambda: tn.contract(all, strip_exponent=True, **kw))
+            ev("x:contract(...,strip)", lambda: tn.contract(..., strip_exponent=True, **kw))
+            ev("x:contract(all,strip)", lambda: tn.contract(all, strip_exponent=True, preserve_tensor=True, **kw), opts="preserve")
+            ev("x:contract(all,strip)", lambda: tn.contract(all, strip_exponent=True, optimize="greedy", **kw), opts="greedy")
+            ev("x:contract(tags,strip)", lambda: tn.contract(net.ttags, strip_exponent=True, **kw), opts="T*", facts={"covers_all": True, "inplace": False})
+            ev("x:contract_tags(strip)", lambda: tn.contract_tags(..., strip_exponent=True, **kw), opts="...", facts={"covers_all": True, "inplace": False})
+            ev("x:contract_tags(strip)", lambda: tn.contract_tags(net.ttags, strip_exponent=True, equalize_norms=False, **kw), opts="T*,noeq", facts={"covers_all": True, "inplace": False})
+            ev("x:tensor_contract(exponent=,strip)", lambda: qtn.tensor_contract(*tn.tensors, exponent=tn.exponent, strip_exponent=True, **kw))
+            if cumul_ok:
+                for p in itertools.permutations(range(n)):
+                    sq = [net.ttags[i] for i in p]
+                    ev("x:contract_cumulative(strip)", lambda: tn.contract_cumulative(sq, strip_exponent=True, **kw), opts="T" + "".join(map(str, p)), facts={"cumulative": True})
+                ev("x:contract_cumulative(strip)", lambda: tn.contract_cumulative(net.ttags, strip_exponent=True, equalize_norms=False, **kw), opts="fwd,noeq", facts={"cumulative": True})
+                ev("x:contract_cumulative(strip)", lambda: tn.contract_cumulative(net.ttags, strip_exponent=True, preserve_tensor=True, **kw), opts="fwd,preserve", facts={"cumulative": True})
+            # ---- in-place routes: the network keeps the exponent ----------
+            ev("x:contract_(all)", lambda: tn.copy().contract_(all, **kw), opts="inplace")
+            ev("x:contract_(all)", lambda: tn.copy().contract_(all, strip_exponent=True, **kw), opts="inplace,strip")
+            ev("x:contract_tags_", lambda: tn.copy().contract_tags_(net.ttags, **kw), opts="T*,inplace", facts={"covers_all": True, "inplace": True})
+            ev("x:contract_tags_", lambda: tn.copy().contract_tags_(net.ttags, equalize_norms=True, **kw), opts="T*,inplace,eqnorm", facts={"covers_all": True, "inplace": True})
+            if cumul_ok:
+                ev("x:contract_cumulative(inplace)", lambda: tn.copy().contract_cumulative(net.ttags, inplace=True, strip_exponent=True, **kw), opts="fwd,strip", facts={"cumulative": True})
+                ev("x:contract_cumulative(inplace)", lambda: tn.copy().contract_cumulative(net.ttags, inplace=True, **kw), opts="fwd", facts={"cumulative": True})
+            # ---- norm / overlap with the exponent stripped ----------------
+            r = net.ref(eff, False)
+            nrm = float(np.sqrt(np.sum(np.abs(r) ** 2)))
+            W = np.asarray
+            ev("x:norm(strip)", lambda: tn.norm(strip_exponent=True, **kw), want=W(nrm), want_labs=(), want_log=E)
+            ev("x:norm(squared,strip)", lambda: tn.norm(squared=True, strip_exponent=True, **kw), want=W(nrm**2), want_labs=(), want_log=2 * E)
+            ev("x:make_norm.contract(all,strip)", lambda: tn.make_norm(**kw).contract(all, output_inds=(), strip_exponent=True), want=W(nrm**2), want_labs=(), want_log=2 * E)
+            ev("x:make_norm.contract_(all)", lambda: tn.make_norm(**kw).contract_(all, output_inds=()), want=W(nrm**2), want_labs=(), want_log=2 * E, opts="inplace", denote_over=())
+        # ---- partial routes: the rest of the network must carry the value --
+        if n >= 2 and (only is None or only[1] == "partial"):
+            for sel in [c for k in range(1, n) for c in itertools.combinations(range(n), k)] + ([tuple(range(n))] if False else []):
+                tags = [net.ttags[i] for i in sel]
+                rest = n - len(sel) + 1
+                for lo, O in local_outputs(net, sel):
+                    if lo is not None and tuple(lo) != tuple(sorted(lo)):
+                        continue
+                    kw = {} if lo is None else {"output_inds": lo}
+                    s0 = ("F", "partial", "+".join(tags), repr(lo))
+                    f = {"partial": True}
+
+                    def evp(name, thunk, opts=""):
+                        return evaluate_log(acc, net, s0 + (name + "|" + opts,), name, thunk, O, want=net.ref(O, False), want_labs=O, opts=opts, facts=f)
+
+                    evp("x:contract_tags(partial)", lambda: tn.contract_tags(tags, **kw))
+                    evp("x:contract_tags(partial)", lambda: tn.contract_tags(tags, strip_exponent=True, **kw), "strip")
+                    evp("x:contract_tags(partial)", lambda: tn.contract_tags(tags, equalize_norms=True, **kw), "eqnorm")
+                    evp("x:contract_tags_(partial)", lambda: tn.copy().contract_tags_(tags, strip_exponent=True, **kw), "inplace,strip")
+                    evp("x:contract_(tags)(partial)", lambda: tn.copy().contract_(tags, **kw), "inplace")
+                    if lo is None and abs(E) / rest <= SHARE_MAX:
+                        # contract_cumulative over an incomplete tag sequence with
+                        # equalize_norms=True: maybe_unwrap -> equalize_norms_()
+                        # redistributes the stored exponent over what is left
+                        for inplace in (False, True):
+                            evp("x:contract_cumulative(partial,eqnorm)", lambda: (tn.copy() if inplace else tn).contract_cumulative([tags], equalize_norms=True, inplace=inplace), "inplace" if inplace else "")
+                            evp("x:contract_cumulative(partial,eqnorm)", lambda: (tn.copy() if inplace else tn).contract_cumulative([[t] for t in tags], equalize_norms=True, inplace=inplace), ("inplace," if inplace else "") + "one-by-one")
+                        evp("x:contract_cumulative(partial)", lambda: tn.contract_cumulative([tags], strip_exponent=True), "strip")
+            # whole-network exponent manipulations (no contraction)
+            if only is None or only[1] == "partial":
+                O = net.dflt if not net.hyper else tuple(net.labels)
+                s0 = ("F", "partial", "manip", repr(O))
+
+                def evm(name, thunk, opts=""):
+                    return evaluate_log(acc, net, s0 + (name + "|" + opts,), name, thunk, O, want=net.ref(O, False), want_labs=O, opts=opts, facts={"manip": True})
+
+                def do(fn):
+                    t2 = tn.copy()
+                    fn(t2)
+                    return t2
+
+                if abs(E) / n <= SHARE_MAX:
+                    evm("x:distribute_exponent", lambda: do(lambda t: t.distribute_exponent()))
+                    evm("x:distribute_exponent", lambda: do(lambda t: t.distribute_exponent(E / 2)), "new=E/2")
+                    evm("x:equalize_norms", lambda: tn.equalize_norms())
+                    evm("x:equalize_norms_", lambda: do(lambda t: t.equalize_norms_()))
+                evm("x:distribute_exponent", lambda: do(lambda t: t.distribute_exponent(E - 3.0)), "new=E-3")
+                evm("x:equalize_norms", lambda: tn.equalize_norms(1.0), "1.0")
+                evm("x:equalize_norms", lambda: tn.equalize_norms(7.5), "7.5")
+                evm("x:strip_exponent", lambda: do(lambda t: t.strip_exponent(next(iter(t.tensor_map)))))
+                evm("x:copy", lambda: tn.copy())
+                evm("x:TN&TN", lambda: tn.select(net.ttags[:1], which="any", with_exponent=True) & tn.select(net.ttags[1:], which="any"))
+    # ---- histories (depth 2) in log space --------------------------------- #
+    states = 1
+    trans = 0
+    if n >= 2 and (only is None or hist_replay):
+        for O in h_global_outs(net):
+            if hist_replay:
+                if tuple(only[1]) != tuple(O):
+                    continue
+                hist = [tuple(e) for e in only[2:]]
+                t2 = tn.copy()
+                for i, e in enumerate(hist):
+                    sub = ["H", list(O)] + [list(x) for x in hist[: i + 1]]
+                    r = evaluate_log(acc, net, sub, "x:history:" + e[0], lambda: h_apply(t2, e, O), O, facts={"history": True, "depth": i + 1}, force=True)
+                    if r is None:
+                        break
+                    t2 = r
+                else:
+                    if hist:
+                        x_state_routes(acc, net, t2, O, ["H", list(O)] + [list(x) for x in hist])
+                continue
+            seen = {h_key(tn)}
+            frontier = [()]
+            for d in range(1, common.get("depth", 2) + 1):
+                nxt = []
+                for hist in frontier:
+                    tn0 = h_rebuild(net, hist, O) if hist else tn
+                    for e in x_menu(tn0, O):
+                        t2 = tn0.copy()
+                        h2 = hist + (e,)
+                        trans += 1
+                        sub = ["H", list(O)] + [list(x) for x in h2]
+                        r = evaluate_log(acc, net, sub, "x:history:" + e[0], lambda: h_apply(t2, e, O), O, facts={"history": True, "depth": len(h2)})
+                        if r is None:
+                            continue
+                        k = h_key(r)
+                        if k not in seen:
+                            seen.add(k)
+                            states += 1
+                            nxt.append(h2)
+                            x_state_routes(acc, net, r, O, sub)
+                            acc.nt.append(core.digest(("F", net.spec, net.dtype, E, cell["ekind"], O, k))[:16])
+                frontier = nxt
+    if acc.n and any(v >= 2 for v in net.freq.values()):
+        acc.nt.append(core.digest(("F", net.spec, net.dtype, E, cell["ekind"]))[:16])
+    res = acc.result()
+    res["states"] = states
+    if trans:
+        res["trans"] = res["n"] + sum(res["rej"].values()) + sum(b["count"] for b in res["bad"])
+    return res
+
+
+# --------------------------------------------------------------------------- #
 #                                   driver                                    #
 # --------------------------------------------------------------------------- #
 
@@ -1437,6 +1770,7 @@ def run(ctx):
         "contract_cumulative is only required to work when output_inds permutes the outer labels (ValueError otherwise is a counted rejection)",
         "partial contraction by tags is given the local output labels computed by the harness (labels needed by the rest must be kept); default inference is used only where it equals the denotation",
         "TNLinearOperator.to_dense/trace are exercised only when the operator's labels are exactly the outer labels (they use default output inference)",
+        "table F: an event/route that DISTRIBUTES the stored exponent into the tensors (distribute_exponent, equalize_norms(None), maybe_unwrap with equalize_norms=True) is only required to work while |exponent| / n_tensors <= 280; a contraction is only requested while the product of the tensors' own magnitudes is a double (sum of |log10 max|data|| <= 140, which also keeps Frobenius norms computable); strip_exponent/equalize_norms events only while every tensor's entries can be squared; routes whose result is a plain number/tensor (not representable) are not run there",
         "a reversed output request runs the order-sensitive core routes only (everything in part of the thorough tier); the sorted request runs everything",
     ]
     expos = [0.0, 2.5] + ([-1.25] if thorough else [])
@@ -1558,6 +1892,24 @@ def run(ctx):
         cells = lim(cells)
         run_cells(ctx, "cell_1d", cells, {}, "D:1D structured route", chunk=2)
         ctx.subproducts.append("D: {MPS,MPO} x L in 1..4 x bond in 1..3 x {open, cyclic (L>=3)} x dtype x exponent x {default, outer, reversed outer} output x structured entries (block sizes 1,2,3,5; every slice) complete")
+    # ---- table F ------------------------------------------------------- #
+    if only in (None, "F"):
+        xs = [400.0, -400.0] + ([550.0, -330.0] if thorough else [])
+        cells = []
+        for n in (1, 2, 3):
+            for spec in network_specs(n, "ab" if not thorough else ("abc" if n == 3 else "abcd")):
+                for e in xs:
+                    for ek in ("py", "np"):
+                        cells.append({"spec": spec, "dtype": "complex128", "expo": e, "ekind": ek})
+                cells.append({"spec": spec, "dtype": "float64", "expo": -400.0, "ekind": "np"})
+        cells = lim(cells)
+        run_cells(ctx, "cell_extreme", cells, {"depth": 2}, "F:stored exponents outside the double range (log-space oracle)", chunk=2)
+        ctx.bounds["extreme_exponents"] = xs
+        ctx.subproducts.append(
+            "F: every network with 1..3 tensors over %s x stored exponent in %s (python float and numpy scalar) x {None, all labels, (), reversed} x every route that can represent the result "
+            "(strip_exponent=True routes, in-place routes, norm/make_norm stripped), every partial contraction by T tags x 5 options + contract_cumulative over an incomplete sequence with equalize_norms=True, "
+            "distribute_exponent/equalize_norms/strip_exponent, and every history of <= 2 in-place events; oracle compares (array, log10 scale)" % ("{a,b}" if not thorough else "{a,b,c,d} (n<=2) / {a,b,c} (n=3)", xs)
+        )
     # ---- table E ------------------------------------------------------- #
     if only in (None, "E"):
         cells = []
@@ -1579,6 +1931,8 @@ def replay(case):
     cell["only"] = core.tuplify(sub) if sub is not None else None
     if case["fn"] == "cell_history":
         cell["only"] = [tuple(e) for e in core.tuplify(sub)] if sub else []
+    if case["fn"] == "cell_extreme" and sub and sub[0] == "H":
+        cell["only"] = ["H"] + [tuple(e) for e in core.tuplify(sub)[1:]]
     common = case.get("common")
     r = fn(cell, common)
     return [b["prob"] for b in r["bad"]]
